@@ -84,6 +84,25 @@ def _(): rep('runtime/core/map.c','            entry->hash = hash;\n            
 def _(): rep('internal/mir/gen/builder.go','condHigh := b.emitBinary(tokens.GREATER_EQUAL_TOKEN, idxAdj, lenVal, indexType, loc)','condHigh := b.emitBinary(tokens.GREATER_TOKEN, idxAdj, lenVal, indexType, loc)')
 @m('m08-2','C08')
 def _(): rep('runtime/libs/panic.c','    fflush(NULL);\n','    fflush(stderr);\n')
+@m('m13-5','C13')
+def _(): rep('internal/diagnostics/emitter.go','''	lines := strings.Split(content, "\\n")
+	sc.mu.Lock()
+	sc.files[filepath] = lines
+	sc.mu.Unlock()''','''	lines := strings.Split(content, "\\n")
+	sc.files[filepath] = lines''')
+@m('m15-4','C15')
+def _(): rep('internal/context_v2/context.go','''func (ctx *CompilerContext) AddModule(importPath string, module *Module) {
+	if module == nil {
+		panic(fmt.Sprintf("cannot add nil module for %q", importPath))
+	}
+
+	ctx.mu.Lock()
+	defer ctx.mu.Unlock()
+''','''func (ctx *CompilerContext) AddModule(importPath string, module *Module) {
+	if module == nil {
+		panic(fmt.Sprintf("cannot add nil module for %q", importPath))
+	}
+''')
 if __name__=='__main__':
     if sys.argv[1]=='list':
         for k,(c,_) in M.items(): print(k,c)
